@@ -321,9 +321,11 @@ void stream_ops(Enumerator &E) {
                 }
             { Builder b; uint32_t s = b.ss(sz); uint32_t x = b.str(add); Op o; o.kind = SS_SHL_STR; o.a = s; o.b = x; size_t ts = b.target(o); E.cell(nm("ss_shl_str", "", cl), b, ts); }
         }
-    for (uint32_t sz : {0u, 250u, 255u, 256u, 300u, 511u, 512u})
+    // every fill level at which sign and digits of the value straddle a capacity boundary (256, 512)
+    for (uint32_t sz : {0u, 230u, 231u, 232u, 233u, 234u, 235u, 236u, 237u, 238u, 239u, 240u, 241u, 242u, 243u, 244u, 245u, 246u, 247u, 248u, 249u, 250u, 251u, 252u, 253u, 254u, 255u, 256u, 300u,
+                        490u, 491u, 492u, 493u, 494u, 495u, 496u, 497u, 498u, 499u, 500u, 501u, 502u, 503u, 504u, 505u, 506u, 507u, 508u, 509u, 510u, 511u, 512u})
         for (unsigned ty = 0; ty < 6; ty++)
-            for (uint32_t vi : {3u, 13u, 25u}) {
+            for (uint32_t vi : {3u, 13u, 25u, 19u}) {
                 Builder b; uint32_t s = b.ss(sz); Op o; o.kind = SS_SHL_INT; o.a = s; o.b = vi; o.c = ty; size_t ts = b.target(o);
                 E.cell(nm("ss_shl_int", "ty" + std::to_string(ty) + ",v" + std::to_string(vi), "size=" + std::to_string(sz)), b, ts);
             }
